@@ -31,8 +31,7 @@ func shardOf(key []byte, shards int) int {
 }
 
 // layoutKeys picks n keys over the given prefixes such that their shards follow the pattern.
-func layoutKeys(r *rand.Rand, n, shards int, pattern string) *h.Keys {
-	prefixes := []string{"ka", "kb", "kc"}
+func layoutKeys(r *rand.Rand, n, shards int, pattern string, prefixes []string) *h.Keys {
 	var ks [][]byte
 	seen := map[string]bool{}
 	want := func(i int) int { // desired shard of the i-th key (-1: any)
@@ -95,7 +94,10 @@ func iterTrace(en *Env, t int) int {
 	shards := []int{1, 2, 3, 16, 1024}[t%5]
 	pattern := []string{"any", "one", "two", "skew"}[(t/5)%4]
 	n := 6 + r.Intn(19)
-	u := layoutKeys(r, n, shards, pattern)
+	// key families: plain letters, and the ends of the byte order (prefixes ending in 0xFF have no successor of the
+	// same length; 0x00 is the smallest extension)
+	prefixes := [][]string{{"ka", "kb", "kc"}, {"k\xff", "k\xff\xff", "k\xfe"}, {"\xff", "\x00", "\x00\xff"}}[(t/2)%3]
+	u := layoutKeys(r, n, shards, pattern, prefixes)
 	n = u.N()
 	cfg := h.Cfg{Index: h.IndexTypes[t%3], Shards: shards, IO: h.IOTypes[(t/3)%2], Limit: []int64{500, 40000, 1 << 20}[r.Intn(3)], Sync: "no"}
 	dir := en.FreshDir()
@@ -137,10 +139,11 @@ func iterTrace(en *Env, t int) int {
 	}
 	target := func(tpos int) []byte {
 		if tpos <= 1 {
-			return []byte{0x01}
+			k := u.Key(1) // below every key: a proper prefix of the smallest
+			return k[:len(k)-1]
 		}
 		if tpos >= 2*n+1 {
-			return []byte{0xff, 0xff}
+			return append(u.Key(n), 0x00) // above every key: the immediate successor of the largest
 		}
 		k := u.Key(tpos / 2)
 		if tpos%2 == 1 {
@@ -157,11 +160,11 @@ func iterTrace(en *Env, t int) int {
 			nextID++
 			switch r.Intn(6) {
 			case 0:
-				li.prefix = []byte("kb")
+				li.prefix = []byte(prefixes[1])
 			case 1:
-				li.prefix = []byte("ka")
+				li.prefix = []byte(prefixes[0])
 			case 2:
-				li.prefix = u.Key(1 + r.Intn(n))[:5]
+				li.prefix = u.Key(1 + r.Intn(n))[:len(prefixes[2])+2]
 			case 3:
 				li.prefix = u.Key(1 + r.Intn(n)) // a whole key (it may also be a proper prefix of a longer key)
 			case 4:
